@@ -29,7 +29,7 @@ func evalExpr(ctx context.Context, v rel.Value) (rel.Value, error) {
 		// Evaluate with the safe library: an empty scope would make `//` fall back to the full, unsafe one.
 		evaluated, err := EvalWithScope(ctx, ".", val.String(), SafeStdScope())
 		if err != nil {
-			panic(err)
+			return nil, err
 		}
 		return evaluated, nil
 	}
